@@ -144,13 +144,13 @@ Definition vev (v : vals) (e : aevent) : event :=
 
 (* vecfc.Index.ForklessCause: cache first, else compute and remember *)
 Section Model.
-Variable fc_cap : nat.                         (* IndexCacheConfig.ForklessCausePairs *)
+Variable fcc_cap : nat.                         (* IndexCacheConfig.ForklessCausePairs *)
 
-Definition fc_query (st : lstate) (a b : N) : bool * lstate :=
+Definition fc_cached (st : lstate) (a b : N) : bool * lstate :=
   match cache_get (a, b) (l_fcc st) with
   | Some r => (r, set_fcc st (cache_touch (a, b) r (l_fcc st)))
   | None => let r := fc (v_weights (l_vals st)) (v_quorum (l_vals st)) (l_idx st) a b in
-            (r, set_fcc st (cache_add fc_cap (a, b) r (l_fcc st)))
+            (r, set_fcc st (cache_add fcc_cap (a, b) r (l_fcc st)))
   end.
 
 (* ---------- store_roots.go (no cache) ---------- *)
@@ -186,7 +186,7 @@ Definition not_decided (el : election) : list N :=
 Fixpoint observed_loop (st : lstate) (rid : N) (frs : list root) (acc : list root) : list root * lstate :=
   match frs with
   | [] => (rev acc, st)
-  | fr :: t => let '(b, st1) := fc_query st rid (r_id fr) in
+  | fr :: t => let '(b, st1) := fc_cached st rid (r_id fr) in
                observed_loop st1 rid t (if b then fr :: acc else acc)
   end.
 Definition observed_roots (st : lstate) (rid : N) (frame : N) : list root * lstate :=
@@ -280,7 +280,7 @@ Fixpoint dfs_confirm (fuel : nat) (es : estore) (frame : N) (stack : list N) (co
       else dfs_confirm fu es frame (rev (a_parents ev) ++ rest) (aput w frame conf) (w :: acc)
     end
   end end.
-Definition dfs_fuel (es : estore) : nat :=
+Definition confirm_fuel (es : estore) : nat :=
   S (fold_left (fun n p => (n + 1 + length (a_parents (snd p)))%nat) es 1%nat).
 
 Record block := { b_frame : N; b_atropos : N; b_cheaters : list N; b_delivered : list N;
@@ -296,7 +296,7 @@ Definition cheaters_of (st : lstate) (atropos : N) : list N :=
                   (combine (v_ids (l_vals st)) (seq 0 (length (l_vals st))))).
 Definition apply_atropos (es : estore) (st : lstate) (frame atropos : N) : result block * lstate :=
   let ch := cheaters_of st atropos in
-  match dfs_confirm (dfs_fuel es) es frame [atropos] (l_conf st) [] with
+  match dfs_confirm (confirm_fuel es) es frame [atropos] (l_conf st) [] with
   | Err x => (Err x, st)
   | Ok (delivered, conf') =>
     let st1 := set_conf st conf' in
@@ -384,7 +384,7 @@ Fixpoint handle_election (fuel : nat) (es : estore) (st : lstate) (e : aevent) (
 Fixpoint fcq_loop (st : lstate) (eid_ : N) (frs : list root) (c : counter) : bool * lstate :=
   match frs with
   | [] => (has_quorum (l_vals st) c, st)
-  | r :: t => let '(b, st1) := fc_query st eid_ (r_id r) in
+  | r :: t => let '(b, st1) := fc_cached st eid_ (r_id r) in
               let c' := if b then snd (count_id (l_vals st) c (r_val r)) else c in
               if has_quorum (l_vals st) c' then (true, st1) else fcq_loop st1 eid_ t c'
   end.
